@@ -232,6 +232,80 @@ def run(tier, seed, replay=None):
                 V.failure(dict(case, what='L2: lowering the periodic continuity changed the map: ' + df[1], param=[str(x) for x in e['probes'][df[0]]]))
         if len(samples) < 3 and op == 'open_close':
             samples.append(case)
+    # ---- periodic objects refined near the seam, then opened: knots inserted in the FIRST and LAST span of the period move
+    # ghost knots (the repair loops of insert_knot); afterwards the ghost knots must still be exact images, and opening the
+    # object (lower_periodic to -1, split at an interior parameter) must give one full period of the ORIGINAL map
+    import gen_basis as GB_
+    rlines, rcases = [], []
+    for it in range(40 if tier == 'quick' else 600):
+        p_ = rng.choice([2, 3, 3, 4])
+        cont_ = rng.choice([0, 0, 0, p_ - 2, rng.randint(0, p_ - 2)])
+        nb_ = rng.randint(p_ + cont_ + 1, p_ + cont_ + 4)
+        brk_ = [Fr(rng.randint(-3, 3))]
+        for _ in range(nb_):
+            brk_.append(brk_[-1] + Fr(rng.choice([1, 2, 3, 4]), rng.choice([1, 2, 4])))
+        kn_ = GB_.periodic_knots(p_, brk_, [1] * (nb_ - 1), cont_)
+        bs_ = dict(order=p_, knots=kn_, periodic=cont_, kind='periodic')
+        sp = O.gen_obj(rng, pardim=1, kinds=['periodic'], rational=rng.random() < 0.3)
+        sp['bases'] = [bs_]
+        ncp_ = O.nfun(bs_)
+        ncomp_ = len(sp['cps'][0])
+        sp['cps'] = [[Fr(rng.randint(-16, 16), 2) if c_ < sp['dim'] else Fr(rng.choice([1, 2, 3]), 2) for c_ in range(ncomp_)] for _ in range(ncp_)]
+        if sp['rational']:
+            sp['cps'] = [[x_ * pt_[-1] for x_ in pt_[:-1]] + [pt_[-1]] for pt_ in sp['cps']]
+        sp['ctor'] = 'raw'
+        sp['intcps'] = False
+        o = O.make_impl(sp)
+        orig = O.snapshot(o)
+        s_, e_ = O.domain(bs_)
+        T_ = e_ - s_
+        where_ = rng.choice(['last', 'last', 'first', 'both'])
+        ins_ = []
+        if where_ in ('last', 'both'):
+            ins_.append(brk_[-2] + (brk_[-1] - brk_[-2]) * Fr(rng.randint(1, 7), 8))
+        if where_ in ('first', 'both'):
+            ins_.append(brk_[0] + (brk_[1] - brk_[0]) * Fr(rng.randint(1, 7), 8))
+        how_ = rng.choice(['lower', 'split'])
+        x0_ = s_ + T_ * Fr(rng.randint(1, 15), 16)
+        case = dict(op='refine near the seam, then open', obj=O.spec_json(orig), inserted=[str(x_) for x_ in ins_], how=how_, at=str(x0_))
+        try:
+            for x_ in ins_:
+                o.insert_knot(float(x_), 0)
+            kk_ = [C.fr(x_) for x_ in o.bases[0].knots]
+            n_ = len(kk_) - p_ - (cont_ + 1)
+            bad_ghost = [i_ for i_ in range(p_ + cont_ + 1) if i_ + n_ < len(kk_) and kk_[i_ + n_] - kk_[i_] != T_]
+            count_ = len(rcases)
+            if bad_ghost:
+                V.failure(dict(case, what='L2: after insertion near the seam the ghost knots are no longer the periodic images of the interior knots (index %d)' % bad_ghost[0],
+                               knots=[str(x_) for x_ in kk_]))
+                continue
+            if how_ == 'lower':
+                o.lower_periodic(-1, 0)
+                lo_ = s_
+            else:
+                o = o.split(float(x0_), 0)
+                lo_ = x0_
+            if o.periodic(0) or abs(o.start(0) - float(lo_)) > 1e-9 or abs(o.end(0) - float(lo_ + T_)) > 1e-9:
+                V.failure(dict(case, what='L2: the opened object has domain [%r, %r] (periodic: %s), expected one period from %s' % (o.start(0), o.end(0), o.periodic(0), lo_)))
+                continue
+            fr_ = [Fr(rng.randint(0, 63), 64) for _ in range(6)]
+            pts_ = [lo_ + T_ * f_ for f_ in fr_]
+            got_ = [np.asarray(o.evaluate(float(t_))).reshape(-1) for t_ in pts_]
+            rcases.append((case, got_, len(rlines)))
+            rlines.append(O.eval_cmd(tol, orig, [[t_] for t_ in pts_]))
+            evals += 1
+            nontriv.add(C.case_hash(case))
+        except Exception as e:  # noqa
+            V.failure(dict(case, what='L2: refining near the seam and opening raised %s' % type(e).__name__))
+    if rlines:
+        routs = C.run_model(rlines)
+        for case, got_, li_ in rcases:
+            want_ = O.parse_eval(routs[li_])
+            for (err_, val_), g_ in zip(want_, got_):
+                if err_ or len(val_) != len(g_) or any(not C.close(a_, b_, max(abs(float(x_)) for x_ in val_)) for a_, b_ in zip(g_, val_)):
+                    V.failure(dict(case, what='L2: the object opened after a refinement near the seam is not the original map on its period',
+                                   got=[float(x_) for x_ in g_], expected=(None if err_ else [float(x_) for x_ in val_])))
+                    break
     rc = V.finish(l0, corr_bad)
     C.write_evidence(PID, tier, seed, l0, {
         'evaluations': evals, 'distinct_nontrivial': len(nontriv),
